@@ -96,7 +96,8 @@ def model(p, gaps, knees, tx, ty, ext):
 def cases(draw, tier):
     c = draw(S.curves(4, 40 if tier == 'quick' else 200,
                       families=['noise', 'mono_dec', 'mono_dec', 'convex', 'concave', 'pwl_dyadic',
-                                'pwl_rational', 'plateau', 'steps', 'trace', 'repo', 'outlier']))
+                                'pwl_rational', 'plateau', 'steps', 'trace', 'repo', 'outlier'],
+                      big_n=160 if tier == 'quick' else 600))
     pts = c['pts']
     n = len(pts)
     ys = [q[1] for q in pts]
